@@ -179,6 +179,8 @@ TABLE.update({
     "c10_mst_stops_early.diff": ("box", "contracts.c10:mst:mst_arg_sets", None),
     "c18_pole_reach_of_one_end.diff": ("box", "contracts.c18:connect_nearest:connect_arg_sets", None),
     "c18_pole_farthest_first.diff": ("box", "contracts.c18:connect_nearest:connect_arg_sets", None),
+    "c20_description_without_line.diff": ("box", "contracts.c20:describe:describe_arg_sets", None),
+    "c20_description_name_dropped.diff": ("box", "contracts.c20:describe:describe_arg_sets", None),
     "c04_self_feedback_on_green.diff": ("box", "contracts.c04:self_feedback:self_feedback_arg_sets", None),
     "c04_cleanup_keeps_wires_of_removed_gate.diff": ("box", "contracts.c04:cleanup_gates:cleanup_arg_sets", None),
     "../seeded/C04-1/patch.diff": ("box", "contracts.c04:optimize_feedback:feedback_arg_sets", None),
